@@ -94,14 +94,21 @@ class FilledGrid(grid.Grid[NumX, NumY]):
     def get_view(  # type: ignore
         self, x_indices: ilist.IList[int, Any], y_indices: ilist.IList[int, Any]
     ):
-        remapping_x = {ix: i for i, ix in enumerate(x_indices)}
-        remapping_y = {iy: i for i, iy in enumerate(y_indices)}
+        # an index may be selected more than once: a vacancy is then visible at
+        # every position of the view that shows its row / column
+        remapping_x: dict[int, list[int]] = {}
+        for i, ix in enumerate(x_indices):
+            remapping_x.setdefault(ix, []).append(i)
+        remapping_y: dict[int, list[int]] = {}
+        for i, iy in enumerate(y_indices):
+            remapping_y.setdefault(iy, []).append(i)
         return FilledGrid(
             parent=self.parent.get_view(x_indices, y_indices),
             vacancies=frozenset(
-                (remapping_x[x], remapping_y[y])
+                (new_x, new_y)
                 for x, y in self.vacancies
-                if x in remapping_x and y in remapping_y
+                for new_x in remapping_x.get(x, ())
+                for new_y in remapping_y.get(y, ())
             ),
         )
 
